@@ -149,3 +149,16 @@ MANIFEST_TEXT['C02'] = (
  "Machine-checked for every program: the runner's stack/buffer/counter invariant (exec_runner) — commands are postponed only for targets whose frame is active, every buffer entry targets an active frame, at a root frame the buffer is already empty before the discard loop, and when the outermost flush returns nothing is unresolved (trees_run_to_completion). The exactly-once count per command and termination are partial: checked by the correspondence on the runner event stream (hook 2) and by the m_runs monitor.",
  "Trusted: as C11. Partial: the per-command exactly-once count over the log and termination are not theorems.",
  "Coq proof (runner invariant with ghost context) + model/implementation correspondence on runner events + monitor", "DESIGN.md §5 C02")
+
+PROPS['C10'] = P(
+    ['refcount_invariant', 'channel_entries_have_no_clone', 'never_while_a_clone_exists', 'last_drop_is_collected',
+     'everything_on_the_channel_is_collected', 'descendants_go_with_it', 'gc_is_idempotent', 'gc_touches_nothing_else'],
+    [], 'full', determined=True, quick_n=3000, thorough_n=60000,
+    assumes=['partial: atomicity of Arc\'s strong count, Drop running exactly once, and linearizability of the crossbeam channel are runtime facts in the trusted base; the theorem quantifies over every op sequence = every interleaving of the (atomic) steps',
+             'descendants: "hangs below" is evaluated when the entity is collected (kill_tree); prepared once per entity (S2) for never_while_a_clone_exists',
+             'the driver performs every real drop on a freshly spawned worker thread, but sequentially (deterministic replay); free-running stress is not part of the quick tier'])
+PROPS['C10']['engine'] = 'c10'
+MANIFEST_TEXT['C10'] = (
+ "Machine-checked over a standalone model of auto_despawn.rs, for every operation sequence (prepare / clone / split drop / collect / despawn / reparent — i.e. every interleaving of worker-thread drops with main-thread collections): a signal is live, sending or sent, never two at once; channel entries come only from signals with no clone left; an entity whose signal is live survives every collection; the first collection after the last drop despawns it with what hangs below it; collection is idempotent and ignores dead entities. Tied to /repo by running generated sequences on the real AutoDespawner (drops executed on worker threads) and comparing the live set after every operation.",
+ "Trusted: Coq kernel; Arc atomicity, Drop-once and channel linearizability (runtime facts the model cannot exhibit: partial); bevy_hierarchy despawn_recursive as modelled.",
+ "Coq proof (invariant over op sequences = interleavings) + model/implementation correspondence", "DESIGN.md §5 C10")
